@@ -61,6 +61,14 @@ pub fn resolve_fault(fault: &[i64], twin_ops: u64) -> Vec<i64> {
     vec![fault[0] - 10, k, fault[2]]
 }
 
+/// (corpus items per family, fault positions per item) of the sweep block.
+pub fn sweep_dims(tier: Tier) -> (u64, u64) {
+    match tier {
+        Tier::Quick => (2, 160),
+        Tier::Thorough => (12, 1200),
+    }
+}
+
 pub fn gen_case(prop: &str, tier: Tier, master: u64, i: u64) -> Case {
     let fams = families_for(prop);
     // Block 0: exhaustive short strings per family (W-noise, fault-free).
@@ -80,6 +88,56 @@ pub fn gen_case(prop: &str, tier: Tier, master: u64, i: u64) -> Case {
         c.note = "short".into();
         return c;
     }
+    // Block 1: fault-position sweep ("crash at every point"): for a fixed small corpus per
+    // family, every fault position k in [0, kmax) x {transient, sticky} x {Io, Eof}, and
+    // truncation at every byte k. Positions beyond the end of a corpus item never fire.
+    let i = i - short_total;
+    let (items, kmax) = sweep_dims(tier);
+    let per_item = 5 * kmax;
+    let sweep_total = fams.len() as u64 * items * per_item;
+    if i < sweep_total {
+        let fi = (i / (items * per_item)) as usize;
+        let fam = fams[fi].0;
+        let rest = i % (items * per_item);
+        let item = rest / per_item;
+        let kind = (rest % per_item) / kmax;
+        let k = rest % kmax;
+        let mut c = Case::new("e1", fam);
+        // corpus item: seed-independent, uncorrupted
+        let mut rng = Rng::new(mix(0x5eed_c0de, tag(fam), item));
+        let be = item % 3 == 2;
+        c.set("be", be as i64);
+        c.set("addr_size", [8i64, 4, 8, 2, 8, 4, 1, 8][(item % 8) as usize]);
+        c.set("sel", rng.below(1 << 30) as i64);
+        gen_family(&mut rng.fork(), &mut c, fam, be);
+        // regenerate without corruption when the note shows any
+        let mut tries = 0;
+        while c.note.contains('+') && tries < 16 {
+            let mut c2 = Case::new("e1", fam);
+            c2.knobs = c.knobs.clone();
+            gen_family(&mut rng.fork(), &mut c2, fam, be);
+            c = c2;
+            tries += 1;
+        }
+        match kind {
+            0 => c.fault = vec![1, k as i64, 0],
+            1 => c.fault = vec![1, k as i64, 1],
+            2 => c.fault = vec![2, k as i64, 0],
+            3 => c.fault = vec![2, k as i64, 1],
+            _ => {
+                let m = main_section(fam).to_string();
+                if let Some(v) = c.secs.get_mut(&m) {
+                    if (k as usize) < v.len() {
+                        v.truncate(k as usize);
+                        c.set("truncated_at", k as i64);
+                    }
+                }
+            }
+        }
+        c.note = format!("sweep:{}", c.note);
+        return c;
+    }
+    let i = i - sweep_total;
     let mut rng = Rng::new(mix(master, tag("e1"), i));
     let total: u64 = fams.iter().map(|f| f.1).sum();
     let mut r = rng.below(total);
@@ -98,6 +156,14 @@ pub fn gen_case(prop: &str, tier: Tier, master: u64, i: u64) -> Case {
     c.set("sel", rng.below(1 << 30) as i64);
     gen_family(&mut rng, &mut c, fam, be);
     c.fault = unresolved_fault(&mut rng);
+    if rng.chance(1, 30) {
+        // the Relocate seam: a relocation table that fails at call k (no reader faults then:
+        // this reader kind is not wrapped by the fault-injecting reader)
+        c.set("rk", 6);
+        c.set("reloc_fail_at", rng.below(24) as i64);
+        c.fault = vec![0];
+        c.note.push_str("+failing_relocate");
+    }
     // truncation-at-byte-k fault (static): applied to the main section
     if rng.chance(15, 100) {
         let m = main_section(fam).to_string();
